@@ -6,6 +6,7 @@ for d in seeded/S*; do
   echo "#### $d ($props)"
   mkdir -p /tmp/seedall && rm -rf /tmp/seedall/x && mkdir /tmp/seedall/x
   cp $d/patch.diff /tmp/seedall/x/seed_patch.diff; cp $d/demo.py /tmp/seedall/x/seed_demo.py
-  tools/seedcheck.sh /tmp/seedall/x "$props" ${1:-20} 2>&1 | grep -E "^==|^exit|PATCH|^ +[0-9]+ (C[0-9]+ |  oracle)" | cut -c1-200
+  base=$(/venv/bin/python -c "import json;print(json.load(open('$d/meta.json')).get('base_commit',''))")
+  SEED_BASE=${base:-HEAD} tools/seedcheck.sh /tmp/seedall/x "$props" ${1:-20} 2>&1 | grep -E "^==|^exit|PATCH|^ +[0-9]+ (C[0-9]+ |  oracle)" | cut -c1-200
 done
 rm -rf /tmp/seedall
